@@ -89,6 +89,10 @@ func GenWM(seed uint64) *WMCase {
 				open--
 			case x < 8 && r.Intn(6) == 0:
 				l = append(l, WMOp{K: "late", Idx: r.Intn(3)})
+			case x == 8 && r.Intn(2) == 0:
+				// Begin of a fresh index below the highest one begun so far (indices begun out of order)
+				l = append(l, WMOp{K: "gap", Idx: r.Intn(4)})
+				open++
 			default:
 				l = append(l, WMOp{K: "wait", Idx: r.Intn(5) - 3, Cancel: r.Intn(6) == 0})
 			}
@@ -218,6 +222,50 @@ func RunWM(t *testing.T, c *WMCase, trace bool) *work.RunOut {
 						m.begun[idx]++
 						mu.Unlock()
 						open = append(open, idx)
+					case "gap":
+						// Begin of an index that was skipped: lower than indices already begun, above the mark.
+						// It is judged like any other index only when the mark provably stands below it at the
+						// moment its Begin is processed: some lower index L, begun earlier, has not had its Done
+						// requested even after this Begin was queued (the mark channel is FIFO). Otherwise the
+						// mark may already have passed it (a legal "late" index) and it is finished at once,
+						// outside the model.
+						mu.Lock()
+						var idx, low uint64
+						found, haveLow := false, false
+						for i, b := range m.begun {
+							if b > m.doneReq[i] && (!haveLow || i < low) {
+								low, haveLow = i, true
+							}
+						}
+						if haveLow && next > 0 {
+							skip := op.Idx
+							for i := next - 1; i > low; i-- {
+								if m.known[i] {
+									continue
+								}
+								if skip == 0 {
+									idx, found = i, true
+									break
+								}
+								skip--
+							}
+						}
+						if !found {
+							mu.Unlock()
+							continue
+						}
+						m.known[idx] = true
+						w.Begin(idx)
+						if m.begun[low] > m.doneReq[low] {
+							m.begun[idx]++
+							open = append(open, idx)
+							ro.Probes["out_of_order_begin"]++
+							mu.Unlock()
+						} else {
+							mu.Unlock()
+							ro.Probes["out_of_order_begin_unjudged"]++
+							w.Done(idx)
+						}
 					case "done":
 						if len(open) == 0 {
 							continue
